@@ -858,7 +858,9 @@ func c19Class(fd *c19Field, realSchema any, jsonFormat, spec, real bool) string 
 	}
 	if spec && !real {
 		switch {
-		case fd.retyped || (jsonFormat && fd.yaml11):
+		case jsonFormat && fd.yaml11:
+			return "string_const_yaml11_in_json"
+		case fd.retyped:
 			return "string_const_in_retyped"
 		case fd.wraps:
 			return "count_bound_wraps_int64"
